@@ -78,7 +78,51 @@ def pub_switches(body, dg):
             if e[0] == "call" and e[1].split("::")[-1] == "is_full":
                 zero = [tg for (v, tg) in t[2] if v == 0]
                 if zero: out.append({"b": b, "success": zero[0], "failure": t[3], "role": "is_full"})
+    # sentinel-integer outcome: a publication role that answers a plain integer, one constant standing for "not published" (`0 = retry`), every other answer being
+    # a length that cannot take that value -- tested by the caller with `== c` / `!= c`.  What the constant means is read from the callee, not assumed.
+    for (tb, eq_t, ne_t, subj) in util.eq_const_edge(body, dg, lambda x: x[0] == "call" and (x[1].split("::")[-1] in PUB_ROLE or x[1].split("::")[-1].startswith(("try_publish", "publish_leaked"))), lambda e: e[0] == "const" and isinstance(e[1], int)):
+        if any(o["b"] == tb for o in out): continue
+        c = D.cmp_of_switch(body, dg, tb)
+        k = [strip_casts(z) for z in (c[1], c[2]) if strip_casts(z)[0] == "const"][0][1]
+        if _sentinel_failure_value(subj[1]) == k and eq_t != ne_t:
+            out.append({"b": tb, "success": ne_t, "failure": eq_t, "role": subj[1].split("::")[-1]})
     return out
+
+
+_SENTINEL = {}
+def _sentinel_failure_value(callee_key):
+    """for an integer-answering publication role: the one constant it answers when its publication CAS did not succeed, provided every other answer is a length that is
+    never that constant (`max(1, ..)`, a NonZero's value, distance + 1); None otherwise"""
+    if callee_key in _SENTINEL: return _SENTINEL[callee_key]
+    _SENTINEL[callee_key] = None
+    fx = F.CURRENT
+    g = fx.fn_opt(callee_key) if fx is not None else None
+    if g is None: return None
+    gb = Body(g); gd = D.Dag(gb)
+    r = gd.local(0)
+    alts = [strip_casts(a) for a in (r[3] if r[0] == "phi" and len(r) > 3 else (r,))]
+    consts = [a for a in alts if a[0] == "const" and isinstance(a[1], int)]
+    others = [a for a in alts if not (a[0] == "const")]
+    if len(consts) != 1 or not others: return None
+    c = consts[0][1]
+    def never_c(e):
+        e = strip_casts(e)
+        if e[0] == "call" and e[1].split("::")[-1] == "max" and len(e[2]) == 2:
+            ks = [strip_casts(x)[1] for x in e[2] if strip_casts(x)[0] == "const" and isinstance(strip_casts(x)[1], int)]
+            return bool(ks) and max(ks) > c
+        if e[0] == "call" and "NonZero" in e[1] and e[1].split("::")[-1] == "get": return c == 0
+        if e[0] == "pair" and e[1][0] == "bin" and e[1][1] == "Add!" and strip_casts(e[1][3])[0] == "const" and isinstance(strip_casts(e[1][3])[1], int) and strip_casts(e[1][3])[1] > c >= 0: return True
+        return False
+    if not all(never_c(a) for a in others): return None
+    # the constant is answered only where the publication CAS failed
+    cas = [(b, cc) for (b, cc) in gb.calls if "compare_exchange" in (cc.get("f") or "")]
+    if cas:
+        for (b, cc) in cas:
+            if cc["dst"]["p"]: return None
+            for (tb, ok_t, err_t) in util.option_test_edges(gb, gd, cc["dst"]["l"]):
+                if ("const", c) in {strip_casts(v) for v in util.returned_values(gb, gd, ok_t)}: return None
+    _SENTINEL[callee_key] = c
+    return c
 
 
 def verdicts(body):
